@@ -37,6 +37,8 @@ func init() {
 			"(D) 18 Content-Type headers (parameters, case, +json family, YAML, text/plain, unknown, empty) × 11 declared content sets (exact, with parameters, wildcards, several, none, schema-less, YAML) × 5 bodies; " +
 			"(E) path-item parameters × 6 kinds of operation-level redeclaration × presence × ExcludeRequestQueryParams; (F) parameter schemas whose type and default sit inside allOf; (G) parameters described by content; " +
 			"(H) a property present with the value null: 2 types × nullable × default × readOnly × required × 5 bodies × top level / nested / array item / anyOf, oneOf, allOf branch × options; " +
+			"(I) urlencoded bodies: 4 flat object schemas (defaults, required, additionalProperties) × 7 field texts × 4 Content-Type spellings × options × GetBody kinds; " +
+			"(J) how the body arrives: ContentLength = length / -1 / 0 with a body present × reader / io.Pipe × GetBody nil/ok/failing × body nil / http.NoBody / empty / JSON × security reading the body or not × required; " +
 			"every block is additionally run with Content-Type parameters and with document-level security in turn; " +
 			"then a seeded random stream combining random schemas (depth ≤ 3, structured defaults), schema-directed values, random path-item and operation parameters, media types and security. " +
 			"A case is non-trivial when the model reports at least one non-default branch.",
@@ -55,6 +57,7 @@ func init() {
 			"the property lists of object schemas are sorted by name (they are keys of a Go map, visited in sorted order); bodies are JSON objects whose keys the model sees sorted",
 			"under a YAML media type only JSON texts are sent (the YAML decoder reads a JSON text as the same value: trusted); a re-encoded YAML body is compared as a value",
 			"parameters described by content have scalar schemas and the single media type application/json",
+			"urlencoded bodies carry only fields of the schema's own (primitive) properties, with values that parse for their type: the value the fields stand for is then the decoded object (the form decoder itself is C06's subject)",
 		},
 	})
 }
@@ -123,6 +126,31 @@ func canonJSON(b []byte) (string, bool) {
 		return "", false
 	}
 	out, _ := json.Marshal(v) // maps are written with sorted keys
+	return string(out), true
+}
+
+// formCanon: the value a urlencoded text stands for, as canonical JSON (one value per field; digits are numbers,
+// true/false booleans, anything else a string — the generator's string fields are alphabetic words)
+func formCanon(b []byte) (string, bool) {
+	vals, err := url.ParseQuery(string(b))
+	if err != nil {
+		return "", false
+	}
+	obj := map[string]any{}
+	for k, vs := range vals {
+		if len(vs) != 1 || vs[0] == "" {
+			continue
+		}
+		t := vs[0]
+		if n, err := strconv.ParseInt(t, 10, 64); err == nil {
+			obj[k] = n
+		} else if t == "true" || t == "false" {
+			obj[k] = t == "true"
+		} else {
+			obj[k] = t
+		}
+	}
+	out, _ := json.Marshal(obj)
 	return string(out), true
 }
 
@@ -250,10 +278,20 @@ func c13Build(c map[string]any) (*c13Env, error) {
 		path: map[string]string{}}, nil
 }
 
-type c13Reader struct{ r *bytes.Reader } // a body that is neither nil nor http.NoBody, whatever its length
+// a body that is neither nil nor http.NoBody, whatever its length, and that honours Close (like a spooled file or a
+// network stream): reading it after Close fails
+type c13Reader struct {
+	r      *bytes.Reader
+	closed bool
+}
 
-func (b *c13Reader) Read(p []byte) (int, error) { return b.r.Read(p) }
-func (b *c13Reader) Close() error               { return nil }
+func (b *c13Reader) Read(p []byte) (int, error) {
+	if b.closed {
+		return 0, errors.New("http: read on closed body")
+	}
+	return b.r.Read(p)
+}
+func (b *c13Reader) Close() error { b.closed = true; return nil }
 
 func c13Request(c map[string]any, env *c13Env) (*http.Request, []byte, bool) {
 	q := url.Values{}
@@ -286,22 +324,34 @@ func c13Request(c map[string]any, env *c13Env) (*http.Request, []byte, bool) {
 		req.Header.Set("Content-Type", ct)
 	}
 	body, has := c["body"].(string)
+	st := jmap(c["stream"])
 	if !has {
 		req.Body = http.NoBody
+		if jstr(st, "kind") == "nil" {
+			req.Body = nil // a client request built without a body
+		}
 		return req, nil, false
 	}
 	data := []byte(body)
-	req.Body = &c13Reader{bytes.NewReader(data)}
-	st := jmap(c["stream"])
+	req.Body = &c13Reader{r: bytes.NewReader(data)}
+	if jstr(st, "kind") == "pipe" {
+		// a streamed body: net/http knows neither its length nor how to rewind it
+		pr, pw := io.Pipe()
+		go func() { _, _ = pw.Write(data); _ = pw.Close() }()
+		req.Body = pr
+	}
 	switch jstr(st, "getBody") {
 	case "ok":
-		req.GetBody = func() (io.ReadCloser, error) { return &c13Reader{bytes.NewReader(data)}, nil }
+		req.GetBody = func() (io.ReadCloser, error) { return &c13Reader{r: bytes.NewReader(data)}, nil }
 	case "fails":
 		req.GetBody = func() (io.ReadCloser, error) { return nil, errors.New("cannot rewind") }
 	}
-	if jstr(st, "cl") == "unknown" {
+	switch jstr(st, "cl") {
+	case "unknown":
 		req.ContentLength = -1
-	} else {
+	case "zero":
+		req.ContentLength = 0 // what http.NewRequest leaves for a reader it does not recognise: "unknown" for a client request
+	default:
 		req.ContentLength = int64(len(data))
 	}
 	return req, data, true
@@ -365,8 +415,8 @@ func runC13(c0 hx.Case) any {
 			if jbool(a, "reads") {
 				r := ai.RequestValidationInput.Request
 				if r.Body != nil && r.Body != http.NoBody {
-					b, _ := io.ReadAll(r.Body)
-					if !bytes.Equal(b, current) {
+					b, rerr := io.ReadAll(r.Body)
+					if rerr != nil || !bytes.Equal(b, current) {
 						seenFull = false
 					}
 				}
@@ -379,7 +429,8 @@ func runC13(c0 hx.Case) any {
 	}
 	rawQuery0 := req.URL.RawQuery
 	hdr0 := req.Header.Clone()
-	clKnown := jstr(jmap(c["stream"]), "cl") != "unknown"
+	clKnown := jstr(jmap(c["stream"]), "cl") != "unknown" && jstr(jmap(c["stream"]), "cl") != "zero"
+	isForm := strings.HasPrefix(jstr(c, "ctype"), "application/x-www-form-urlencoded")
 	reuse := jbool(c, "reuseInput")
 	var shared *openapi3filter.RequestValidationInput
 	pass := func() map[string]any {
@@ -405,17 +456,18 @@ func runC13(c0 hx.Case) any {
 			current = nil
 		} else {
 			b, rerr := io.ReadAll(req.Body)
-			if rerr != nil {
-				obs["body"] = "readError:" + rerr.Error()
-			}
 			switch {
+			case rerr != nil:
+				obs["body"] = "readError:" + rerr.Error()
 			case hasBody && bytes.Equal(b, orig):
 				obs["body"] = "orig"
 			case len(b) == 0:
 				obs["body"] = "consumed"
 			default:
 				obs["body"] = "new"
-				if cj, ok := canonJSON(b); ok {
+				if cj, ok := formCanon(b); ok && isForm {
+					obs["json"] = cj
+				} else if cj, ok := canonJSON(b); ok {
 					obs["json"] = cj
 				} else if jb, yerr := yaml.YAMLToJSON(b); yerr == nil && strings.Contains(jstr(c, "ctype"), "yaml") {
 					cj, _ := canonJSON(jb) // a YAML body that was re-encoded as YAML: compared as a value
@@ -434,7 +486,7 @@ func runC13(c0 hx.Case) any {
 				}
 			}
 			// the next handler has read the body; the same bytes are put back for whoever comes next
-			req.Body = &c13Reader{bytes.NewReader(b)}
+			req.Body = &c13Reader{r: bytes.NewReader(b)}
 			current = b
 		}
 		obs["store"] = c13Store(req, env.path)
@@ -532,6 +584,9 @@ func cmpC13(c0 hx.Case, impl any, reply map[string]any) hx.Verdict {
 	origCanon, origIsJSON := "", false
 	if hasBody {
 		origCanon, origIsJSON = canonJSON([]byte(origText))
+		if strings.HasPrefix(jstr(c, "ctype"), "application/x-www-form-urlencoded") {
+			origCanon, origIsJSON = formCanon([]byte(origText)) // the value the fields stand for
+		}
 	}
 	// the JSON value the observation's body stands for ("" when it is not JSON / there is none)
 	bodyVal := func(o map[string]any) string {
